@@ -38,7 +38,20 @@ CH4 = [0x1F600, 0x10000, 0x10FFFF]
 # and of the neighbouring lead bytes
 EDGE = [0x0800, 0x0FBF, 0x0FC0, 0x0FFF, 0x1000, 0xCFFF, 0xD000, 0xD7FF, 0xE000, 0xFFFF,
         0x10000, 0x10FFF, 0x3F000, 0x3FFFF, 0x40000, 0xFFFFF, 0x100000, 0x10FFFF, 0x80, 0xBF, 0xC0, 0x7FF]
-ALLCH = CH1 + CH2 + CH3 + CH4 + EDGE
+# Unicode look-alikes of the characters the command line gives a meaning to: white space other than U+0020,
+# dashes other than U+002D, quotes and backslashes other than U+0022 / U+005C, full-width letters. For the
+# library (and the specification) they are ordinary characters.
+LOOK = [0xA0, 0x1680, 0x2003, 0x2009, 0x2028, 0x3000, 0x2010, 0x2013, 0x2212, 0xFF0D, 0x201C, 0x201D, 0xFF02, 0xFF3C, 0xFF48]
+ALLCH = CH1 + CH2 + CH3 + CH4 + EDGE + LOOK
+
+
+def spellings(t):
+    """near-miss spellings of a token: other letter cases, full-width letters, other dashes"""
+    out = {t.upper(), t.capitalize(), t.swapcase(), t.title(),
+           "".join(chr(ord(c) + 0xFEE0) if "!" <= c <= "~" else c for c in t),
+           t.replace("-", "\u2013"), t.replace("-", "\u2212", 1), t.replace("-", "\uff0d")}
+    out.discard(t)
+    return sorted(out)
 
 
 # ---------------------------------------------------------------------------------------
@@ -770,7 +783,9 @@ def c07(ctx):
     reqs = [{"m": "tokens_enum", "alphabet": TOK_ALPHA, "maxlen": maxlen},
             # quoting next to characters of every encoded length, and next to the odd ASCII characters a line may hold
             {"m": "tokens_enum", "alphabet": [0x22, 0x5C, 0x1F600, 0x4E2D, 0x61, 0x20], "maxlen": 5 if q else 6},
-            {"m": "tokens_enum", "alphabet": [0x61, 0x20, 0x22, 0x7F, 0x09, 0x01], "maxlen": 4 if q else 6}]
+            {"m": "tokens_enum", "alphabet": [0x61, 0x20, 0x22, 0x7F, 0x09, 0x01], "maxlen": 4 if q else 6},
+            # white space other than U+0020, quotes other than U+0022: ordinary characters
+            {"m": "tokens_enum", "alphabet": [0x61, 0x20, 0x22, 0x3000, 0xA0, 0x201C], "maxlen": 4 if q else 6}]
     # round trip on the code: every list of <= 3 strings of <= 2 (3) characters, rendered
     strs = [[]]
     fr = [[]]
@@ -976,6 +991,12 @@ def c17(ctx):
                         "steps": [{"ev": "byte", "b": v} for v in bs2]})
     ctx.extra["scalars_through_cli"] = len(cps)
     validate_cli(ctx, vh, scripts, "C17", "c17", shards=14)
+    # declared command names, option names and generated short options outside ASCII, through parsers derived
+    # by the repository's macros (a declaration cannot be compiled per scalar value: the catalogue's `names`)
+    by_id = load_catalogue()[1]
+    dreqs = derive_requests(rng, ctx.tier, ["names"], by_id, False)
+    ctx.extra["derived_lines_non_ascii_names"] = len(dreqs)
+    run_mod(ctx, vh, dreqs, "c17d", shards=4, spec="DeriveTrace", env={"CATALOGUE": CATALOGUE, "FOCUS": "C09"})
     return ctx.finish("one record per scalar value with the library's encode_utf8, char_count, char_byte_index, char_pop_front "
                       "and common_prefix_len applied to it between neighbours of other encoded lengths, validated by TLC against "
                       "Utf8's operators; quick: +-16 around every length boundary and the surrogate gap plus a seeded sample")
@@ -1153,6 +1174,15 @@ def c01(ctx):
     for i, l in enumerate(qlists):
         steps = [{"ev": "byte", "b": b} for b in utf8s(render([[0x63]] + l) if rngq.random() < 0.7 else render(l))] + [{"ev": "byte", "b": 13}]
         qscripts.append({"sid": 900001 + i, "cfg": {"cmd": 48, "hcap": 16, "set": "raw", "prompt": 0, "rawproc": i % 2 == 0}, "steps": steps})
+    # lines that only look blank, only look like help requests, or only look quoted / dashed
+    near = ["\u3000", "\u00a0\u00a0", " \u3000 ", "\u2003x\u2003", "go\u3000x", "\u2028", "\u1680 \u2009", "go \u00a0", "\u3000 \u3000 go"]
+    near += [m for m in spellings("help")] + [m + " go" for m in spellings("help")]
+    near += ["go " + m for m in spellings("--help") + spellings("-h")] + ["go x " + m + " y" for m in spellings("--help")[:3]]
+    near += ["\u201ca b\u201d", "\uff02a b\uff02", "a\uff3c\" b", "\u2013x", "\u2212\u2212y"]
+    for i, ln in enumerate(near):
+        for j, set_id in enumerate(ALLSETS):
+            qscripts.append({"sid": 950001 + i * 16 + j, "cfg": {"cmd": 48, "hcap": 32, "set": set_id, "prompt": 0, "rawproc": (i + j) % 3 == 0},
+                             "steps": scen([ln, "<enter>", "<up>", "<left>", "<enter>", "ok", "<enter>"], {"chunks": [{"m": "w", "t": [111]}]})})
     return cli_property(ctx, "C01", extra_scripts=qscripts, mc_consts=
                         [dict(SMALL, WithApi=False)] if q else [dict(MED, WithApi=False), dict(BIG, WithApi=False, NoEmit=True)],
                         mc_limit=2000 if q else 150000,
@@ -1220,7 +1250,21 @@ def systematic_api(ctx, kind):
                           for t1 in pieces for t2 in pieces for t3 in pieces]
         elif len(chunkings) > 250:
             chunkings = rng.sample(chunkings, 250)
+        # literals without run-time arguments through write! / writeln! / uwrite! / uwriteln!, alone and
+        # next to the other methods
+        K = sessions.K_LITS
+        konst = [[(m, t if m in ("kf", "ku") else t + "\n")] for m in ("kf", "kl", "ku", "kn") for t in K]
+        konst += [[a[0], (m2, t2)] for a in konst for m2, t2 in (("w", "y"), ("wl", ""), ("kf", "done"))]
+        konst += [[(m1, t1), a[0]] for a in konst[:len(K) * 4] for m1, t1 in (("w", "y"), ("w", "y\n"))]
+        chunkings += konst if not q else rng.sample(konst, 90)
         line = "ab é"
+        # a hand-written processor that writes and then rejects the command
+        for n, ch in enumerate(chunkings if not q else rng.sample(chunkings, 120)):
+            chunks = [{"m": m, "t": T(t)} for m, t in ch]
+            scripts.append({"sid": sid, "cfg": {"cmd": 16, "hcap": 8, "set": rng.choice(["raw", "leds"]), "prompt": rng.choice([0, 2])},
+                            "steps": scen(["go x", "<enter>", "z", "<left>"], {"chunks": chunks, "perr": 1 + n % 3})
+                            + scen(["<enter>"], {"chunks": [], "perr": 1 + n % 3})})
+            sid += 1
         for ch in chunkings:
             chunks = [{"m": m, "t": T(t)} for m, t in ch]
             for back in ([0, 2] if q else range(0, len(line) + 1)):
@@ -1245,6 +1289,26 @@ def systematic_api(ctx, kind):
                         scripts.append({"sid": sid, "cfg": {"cmd": cmd, "hcap": 8, "set": "leds", "prompt": rng.choice([0, 1, 2])},
                                         "steps": scen(items, {"chunks": [{"m": "w", "t": T("out")}], "p": 3})})
                         sid += 1
+        # a long line with the cursor far from its end (and at it) when the API redraws it: distances around
+        # the sizes an implementation might choose for a scratch buffer or a counter
+        dists = [1, 31, 32, 33, 39, 40, 41, 63, 64, 65, 127, 128, 129, 255, 256, 257, 300] if not q else [33, 41, 65, 129, 257]
+        for d in dists:
+            for ch, extra in (("a", 4), ("é", 1)):
+                n = d + extra
+                for api in ({"ev": "write", "chunks": [{"m": "w", "t": T("note")}]}, {"ev": "prompt", "p": 2}):
+                    items = [ch * n] + ["<left>"] * d + [api, "z", "<right>", api, "<enter>"]
+                    scripts.append({"sid": sid, "cfg": {"cmd": 2 * n + 8, "hcap": 8, "set": "raw", "prompt": 0},
+                                    "steps": scen(items, {"chunks": [{"m": "w", "t": T("out")}]})})
+                    sid += 1
+        # every ordered pair of prompts (equal and different byte lengths and widths), on an empty line and
+        # inside a line
+        for p1 in range(len(sessions.PROMPTS)):
+            for p2 in range(len(sessions.PROMPTS)):
+                for items in (["ab", "<left>", {"ev": "prompt", "p": p2}, "c", {"ev": "prompt", "p": p1}, "<enter>"],
+                              [{"ev": "prompt", "p": p2}, "x", "<enter>", {"ev": "prompt", "p": p1}]):
+                    scripts.append({"sid": sid, "cfg": {"cmd": 16, "hcap": 8, "set": "leds", "prompt": p1},
+                                    "steps": scen(items, {"chunks": [], "p": p2})})
+                    sid += 1
     ctx.extra["systematic_sessions"] = len(scripts)
     return scripts
 
@@ -1765,6 +1829,15 @@ def derive_requests(rng, tier, roots, by_id, help_lines=False):
                 add(base)
                 for a in alpha:
                     add(base + [a])
+                # names and options are matched exactly: near-miss spellings are other names
+                for m in spellings(base[-1]):
+                    add(base[:-1] + [m])
+                    add(base[:-1] + [m, alpha[-1]])
+                for a in alpha:
+                    if a.startswith("-") and len(a) > 1 and a != "--":
+                        for m in spellings(a)[: (2 if q else 8)]:
+                            add(base + [m])
+                            add(base + [m, alpha[-1]])
                 if len(alpha) <= (14 if q else 30):
                     for a in alpha:
                         for b in alpha:
@@ -1787,6 +1860,12 @@ def derive_requests(rng, tier, roots, by_id, help_lines=False):
                 # help-shaped lines: `help path...`, and the help option inserted at every position
                 add(["help"] + base)
                 add(["help"] + base + ["extra"])
+                # only `help`, `-h` and `--help`, spelt exactly so, ask for help
+                for m in spellings("help"):
+                    add([m] + base)
+                for m in spellings("--help") + spellings("-h"):
+                    add(base + [m])
+                    add(base + [alpha[-1], m])
                 n_rand = 8 if q else 60
                 lines = [base, base + [rng.choice(alpha)]] + [base + [rng.choice(alpha) for _ in range(rng.randint(1, 4))] for _ in range(n_rand)]
                 if len(path) > 1:
@@ -1817,6 +1896,9 @@ def derive_requests(rng, tier, roots, by_id, help_lines=False):
                         for h in hs:
                             add(ln[:pos] + h + ln[pos:])
         if help_lines:
+            for m in spellings("help"):
+                add([m])
+                add([m, "nope"])
             add(["help"])
             add(["help", "nope"])
             add(["help", "help"])
